@@ -167,3 +167,20 @@ theorem stableSortBy_congr {α} (key : α → Nat) (l₁ l₂ : List α)
   rw [stableSortBy_filter, stableSortBy_filter, h k]
 
 end Aidl
+
+namespace Aidl
+
+/-- counting in the sorted diagnostics: what is pushed outside a group does not count when the
+    predicate never holds there -/
+theorem countP_sorted_group (p : Diag → Bool) (all others grp : List Diag)
+    (hperm : all.Perm (others ++ grp)) (hz : ∀ d ∈ others, p d = false) :
+    (sortDiags all).countP p = grp.countP p := by
+  rw [(sortDiags_perm all).countP_eq, hperm.countP_eq, List.countP_append]
+  have : others.countP p = 0 := by
+    apply List.countP_eq_zero.mpr
+    intro d hd hp
+    rw [hz d hd] at hp
+    cases hp
+  omega
+
+end Aidl
